@@ -11,6 +11,11 @@ Line protocol of the C07 model (one s-expression in, one out); strings are perce
   (parsetext TEXT)    -> SKEL | none               lexer, then parser
   (printtext UNI SKEL) -> TEXT                      text of the model printer (no line limit)
   (namesok SKEL)      -> T | F                      every identifier of the skeleton is NameOK
+  (printty UNI TY)    -> (TOK ...)                 tokens of the model type printer
+  (parsetytext TEXT)  -> TY | none                 lexer, then the model parser for rule `type`
+  (printthm UNI (SKEL ...) SKEL) -> (TOK ...)      tokens of the model sequent printer
+  (parsethmtext TEXT) -> ((SKEL ...) SKEL) | none  lexer, then the model parser for rule `thm`
+TY = (tvar s) | (stvar s) | (fn a b) | (con name (TY ...))
 SKEL = (atom s) | (app f a) | (bin o l r) | (un o a) | (binder b x body) | (ite c a b)
 TOK  = lp | rp | dot | if | then | else | (sym s) | (id s)
 -/
@@ -76,6 +81,29 @@ def tokOf : Sexp → Option Tok
   | .list [.atom "id", .atom s] => some (.id (toCodes (dec s)))
   | _ => none
 
+mutual
+partial def tyOf : Sexp → Option Ty
+  | .list [.atom "tvar", .atom s] => some (.tvar (toCodes (dec s)))
+  | .list [.atom "stvar", .atom s] => some (.stvar (toCodes (dec s)))
+  | .list [.atom "fn", a, b] => do some (.fn (← tyOf a) (← tyOf b))
+  | .list [.atom "con", .atom n, .list args] => do some (.con (toCodes (dec n)) (← tysOf args))
+  | _ => none
+partial def tysOf : List Sexp → Option TyList
+  | [] => some .nil
+  | x :: xs => do some (.cons (← tyOf x) (← tysOf xs))
+end
+
+mutual
+partial def tyTo : Ty → Sexp
+  | .tvar s => .list [.atom "tvar", .atom (enc (ofCodes s))]
+  | .stvar s => .list [.atom "stvar", .atom (enc (ofCodes s))]
+  | .fn a b => .list [.atom "fn", tyTo a, tyTo b]
+  | .con n args => .list [.atom "con", .atom (enc (ofCodes n)), .list (tysTo args)]
+partial def tysTo : TyList → List Sexp
+  | .nil => []
+  | .cons t ts => tyTo t :: tysTo ts
+end
+
 def namesOKb (S : List (List Nat)) : Skel → Bool
   | .atom s => NameOK S s
   | .app f a => namesOKb S f && namesOKb S a
@@ -109,6 +137,29 @@ def handle (line : String) : String :=
     match skelOf t with
     | some sk => toString (Sexp.ofBool (namesOKb Gen.symbolsC sk))
     | none => "bad-op"
+  | some (.list [.atom "printty", u, t]) =>
+    match u.toBool?, tyOf t with
+    | some uni, some ty => toString (Sexp.list ((printTy Gen.tySyms uni ty).map tokTo))
+    | _, _ => "bad-op"
+  | some (.list [.atom "parsetytext", .atom s]) =>
+    match lex Gen.symbolsC (toCodes (dec s)) with
+    | some toks =>
+      match parseTy Gen.tySyms toks with
+      | some ty => toString (tyTo ty)
+      | none => "none"
+    | none => "none"
+  | some (.list [.atom "printthm", u, .list hs, c]) =>
+    match u.toBool?, hs.mapM skelOf, skelOf c with
+    | some uni, some hyps, some concl =>
+      toString (Sexp.list ((printThm Gen.table Gen.ladder Gen.seqSyms uni hyps concl).map tokTo))
+    | _, _, _ => "bad-op"
+  | some (.list [.atom "parsethmtext", .atom s]) =>
+    match lex Gen.symbolsC (toCodes (dec s)) with
+    | some toks =>
+      match parseThm Gen.table Gen.ladder Gen.seqSyms toks with
+      | some (hyps, c) => toString (Sexp.list [.list (hyps.map skelTo), skelTo c])
+      | none => "none"
+    | none => "none"
   | some (.list [.atom "parsetext", .atom s]) =>
     match lex Gen.symbolsC (toCodes (dec s)) with
     | some toks =>
